@@ -88,9 +88,28 @@ def gen_series(rnd, kind):
         ds.append(D(1982, 4, rnd.randint(1, 28)))
     elif kind == "starts-late":
         ds = walk(D(1981, rnd.randint(1, 4), rnd.randint(1, 28)), D(1981, 10, 30), 15, 80, 5)
+    elif kind in ("plateau", "duplicate-dates"):
+        ds = walk(D(1980, rnd.randint(6, 9), rnd.randint(1, 28)), D(1981, 11, 30), 8, 60, 16)
     else:  # single
         ds = [D(1981, rnd.randint(1, 12), rnd.randint(1, 28))]
     recs = [(d.strftime("%m%d%Y"), lv()) for d in ds]
+    if kind == "plateau":
+        # the level is held over 2..5 consecutive readings, then changes (logger files)
+        i = 0
+        while i < len(recs):
+            hold = rnd.randint(2, 5)
+            v = lv()
+            while i > 0 and abs(v - recs[i - 1][1]) < 0.5:
+                v = lv()
+            for j in range(i, min(i + hold, len(recs))):
+                recs[j] = (recs[j][0], v)
+            i += hold
+        if len(recs) > 2 and recs[-1][1] == recs[-2][1]:
+            recs.append((D(1981, 12, 20).strftime("%m%d%Y"), lv()))
+    if kind == "duplicate-dates":
+        for _ in range(3):
+            i = rnd.randrange(1, len(recs))
+            recs.insert(i, (recs[i - 1][0], lv()))
     if kind == "last-on-start":
         recs.append(("09311980", lv()))
     while len(recs) > 1 and abs(recs[-1][1] - recs[-2][1]) < 0.5:
@@ -98,7 +117,8 @@ def gen_series(rnd, kind):
     return recs
 
 
-SERIES_KINDS = ["ends-mid-run", "before-start", "last-on-start", "covers-run", "starts-late", "single"]
+SERIES_KINDS = ["plateau", "plateau", "ends-mid-run", "before-start", "last-on-start", "covers-run", "starts-late", "single", "duplicate-dates"]
+BOUNDARY_PHASES = [0, 1, 79, 80, 81, 359, 360, 361, -1, -360, 720]
 
 
 def prepare(ctx):
@@ -123,24 +143,24 @@ def prepare(ctx):
         open(p, "w").write("\n".join(out))
     # configured phases: the sinusoid's period is 360 and the phase is any integer
     conf = {"zuc": rnd.randint(-400, -1), "rue": rnd.randint(365, 800)}
-    for proj, ph in conf.items():
-        p = os.path.join(ex, "project", proj, "config.yml")
-        txt, n = re.subn(r"(?m)^GroundWaterPhase:.*$", "GroundWaterPhase: %d" % ph, open(p).read())
-        if n != 1:
-            txt += "\nGroundWaterPhase: %d\n" % ph
-        open(p, "w").write(txt)
     nrep = 6 if ctx.thorough else 1
-    series = []
+    series, rows = [], []
+    for rep in range(nrep):
+        for kind in SERIES_KINDS:
+            k = len(series)
+            sid = "P1" if k == 0 else "P10" if k == 1 else "G%02d" % k      # "P1" is a prefix of "P10": the reader must not mix them
+            recs = gen_series(rnd, kind)
+            series.append({"id": sid, "kind": kind, "records": recs})
+            rows.append([(sid, d, v) for d, v in recs])
+    # the rows of the ids interleaved in the file (each id's own order kept)
     with open(os.path.join(ex, "project", "ex3", "gw_ex3.csv"), "a") as f:
         f.write("\n")
-        for rep in range(nrep):
-            for kind in SERIES_KINDS:
-                sid = "G%02d" % len(series)
-                recs = gen_series(rnd, kind)
-                for d, v in recs:
-                    f.write("%s,%s,%s\n" % (sid, d, v))
-                series.append({"id": sid, "kind": kind, "records": recs})
-    endy = 2005 if ctx.thorough else 1985
+        live = [r for r in rows if r]
+        while live:
+            r_ = rnd.choice(live)
+            f.write("%s,%s,%s\n" % r_.pop(0))
+            live = [r for r in live if r]
+    endy = 2005 if ctx.thorough else 1983
     lines = []
 
     def add(base, fmt, extra, end_year, what):
@@ -150,17 +170,23 @@ def prepare(ctx):
     add(ex3, "EN", "", endy, {"series": "shipped"})
     for sr in series:
         add(ex3, "EN", "gwId=%s" % sr["id"], 1981, {"series": sr["kind"], "id": sr["id"], "records": sr["records"]})
-    add(zuc, "DE", "@phase=%d" % conf["zuc"], endy, {"phase": conf["zuc"], "via": "config.yml"})
-    add(rue, "DE", "@phase=%d" % conf["rue"], endy, {"phase": conf["rue"], "via": "config.yml"})
-    cmd = [rnd.randint(0, 364), rnd.randint(-400, -1), rnd.randint(365, 800), -360, 365] + \
+    add(zuc, "DE", "@config-phase=%d @phase=%d" % (conf["zuc"], conf["zuc"]), endy, {"phase": conf["zuc"], "via": "config.yml"})
+    add(rue, "DE", "@config-phase=%d @phase=%d" % (conf["rue"], conf["rue"]), endy, {"phase": conf["rue"], "via": "config.yml"})
+    # the boundary phases, each from config.yml and from the command line (the config then holds another value)
+    for k, ph in enumerate(BOUNDARY_PHASES):
+        base = zuc if k % 2 == 0 else rue
+        add(base, "DE", "@config-phase=%d @phase=%d" % (ph, ph), 1981, {"phase": ph, "via": "config.yml"})
+        add(base, "DE", "GroundWaterPhase=%d @config-phase=%d @phase=%d" % (ph, 33 + k, ph), 1981, {"phase": ph, "via": "command line"})
+    cmd = [rnd.randint(0, 364), rnd.randint(-400, -1), rnd.randint(365, 800), 365] + \
           [rnd.randint(-400, 800) for _ in range(12 if ctx.thorough else 1)]
     for k, ph in enumerate(cmd):
-        base, fmt = (zuc, "DE") if k % 2 == 0 else (rue, "DE")
-        add(base, fmt, "GroundWaterPhase=%d @phase=%d" % (ph, ph), 1982, {"phase": ph, "via": "command line"})
+        base = zuc if k % 2 == 0 else rue
+        add(base, "DE", "GroundWaterPhase=%d @config-phase=%d @phase=%d" % (ph, conf["zuc"], ph), 1982, {"phase": ph, "via": "command line"})
     if ctx.thorough:
         for ln, fmt in TRACE[3:]:
-            ph = conf["zuc"] if "project=zuc" in ln else conf["rue"] if "project=rue" in ln else None
-            add(ln, fmt, "@phase=%d" % ph if ph is not None else "", endy, {"phase": ph, "via": "config.yml"} if ph is not None else {"series": "shipped"})
+            pj = "zuc" if "project=zuc" in ln else "rue" if "project=rue" in ln else None
+            add(ln, fmt, "@config-phase=%d @phase=%d" % (conf[pj], conf[pj]) if pj else "", endy,
+                {"phase": conf[pj], "via": "config.yml"} if pj else {"series": "shipped"})
     json.dump(lines, open(mark, "w"))
     return ex, lines
 
@@ -212,19 +238,34 @@ def correspond(ctx):
         x["dates"], x["vals"] = x["dates"] or [], x["vals"] or []
     traces = [x for x in rows if x["k"] == "gwtrace"]
     # a traced series run: split the days into chunks so that shards stay small
-    tchunks = []
-    for t in traces:
-        for k in range(0, len(t["q"]), 400):
-            tchunks.append({"tag": "traced-line-%d" % t["line"], "dates": t["dates"], "vals": t["vals"],
-                            "q": t["q"][k:k + 400], "level": t["level"][k:k + 400]})
-    allser = series + tchunks
     _eval(ctx, c, "gw-series (failing queries)", "list (Z * float) * list (Z * (bool * float))", "gw_check",
-          [series_record(x) for x in allser], [{"tag": x["tag"], "dates": x["dates"], "vals": x["vals"], "q": x["q"][:50]} for x in allser], 60)
+          [series_record(x) for x in series], [{"tag": x["tag"], "dates": x["dates"], "vals": x["vals"], "q": x["q"][:50]} for x in series], 60)
+    # traced runs: the reader's arrays and every day's level against the ROWS OF THE FILE (all ids, file order)
+    rd_recs, rd_meta, day_recs, day_meta = [], [], [], []
+    for t in traces:
+        if not t.get("row_ids"):
+            c.mismatches.append({"kind": "groundwater-file-not-readable-by-the-reference", "line": plan[t["line"]]["line"]})
+            continue
+        idn = {}
+        for i_ in t["row_ids"] + [t["id"]]:
+            idn.setdefault(i_, len(idn) + 1)
+        rws = "[" + "; ".join("(%s, %s, %s)" % (z(idn[i_]), z(d), fl(v)) for i_, d, v in zip(t["row_ids"], t["row_dates"], t["row_levels"])) + "]"
+        what = plan[t["line"]]["what"]
+        rd_recs.append("(%s, %s, %s, %s)" % (rws, z(idn[t["id"]]), "[" + "; ".join(z(d) for d in (t["stamps"] or [])) + "]", fls(t["stamp_vals"] or [])))
+        rd_meta.append({"run": what, "id": t["id"], "rows_of_the_id_in_the_file": len(t["dates"]), "timestamps_read": len(t["stamps"] or [])})
+        for k in range(0, len(t["q"]), 400):
+            qs = "[" + "; ".join("(%s, (false, %s))" % (z(q), fl(l)) for q, l in zip(t["q"][k:k + 400], t["level"][k:k + 400])) + "]"
+            day_recs.append("(%s, %s, %s)" % (rws, z(idn[t["id"]]), qs))
+            day_meta.append({"run": what, "id": t["id"], "days": [t["q"][k], t["q"][min(k + 399, len(t["q"]) - 1)]]})
+    _eval(ctx, c, "gw-reader (1 timestamps are not the file's rows of the id in order, 2 values)",
+          "list (Z * Z * float) * Z * list Z * list float", "reader_check", rd_recs, rd_meta, 4)
+    _eval(ctx, c, "gw-daily-level (days on which GRW is not the level of the file's series)",
+          "list (Z * Z * float) * Z * list (Z * (bool * float))", "gw_file_check", day_recs, day_meta, 4)
     sins = [x for x in rows if x["k"] == "gwsin"]
     _eval(ctx, c, "gw-sinus (1 argument, 2 GRW, 4 phase used is not the configured one)",
           "float * Z * Z * float * float * float * float * float", "sin_check",
           ["(%s, %s, %s, %s, %s, %s, %s, %s)" % (fl(x["tag"]), z(x["phase"]), z(x["gphase"]), fl(x["gw"]), fl(x["ampl"]), fl(x["arg"]), fl(x["s"]), fl(x["grw"]))
-           for x in sins], [dict(x, run=plan[x["line"]]["what"]) for x in sins], 800)
+           for x in sins], [dict(x, run=plan[x["line"]]["what"] if x["line"] >= 0 else "hermes.Init") for x in sins], 800)
     polys = [x for x in rows if x["k"] == "gwpoly"]
     _eval(ctx, c, "gw-mean-amplitude (1 GW, 2 AMPL)", "Z * Z * float * float", "poly_check",
           ["(%s, %s, %s, %s)" % (z(x["grlo"]), z(x["grhi"]), fl(x["gw"]), fl(x["ampl"])) for x in polys], polys, 800)
@@ -248,19 +289,31 @@ def correspond(ctx):
         flat = len(t["vals"]) > 1 and t["vals"][-1] == t["vals"][-2]
         cover.append({"line": t["line"], "kind": plan[t["line"]]["what"].get("series"), "records": len(t["dates"]),
                       "days_before_first": sum(1 for q in t["q"] if q < first), "days_on_a_date": sum(1 for q in t["q"] if q in set(t["dates"])),
-                      "days_from_last_date_on": sum(1 for q in t["q"] if q >= last), "starts": "after-last" if t["q"][0] > last else
+                      "days_from_last_date_on": sum(1 for q in t["q"] if q >= last),
+                      "plateau_rows": sum(1 for a_, b_ in zip(t["vals"], t["vals"][1:]) if a_ == b_),
+                      "duplicate_dates": len(t["dates"]) - len(set(t["dates"])), "starts": "after-last" if t["q"][0] > last else
                       "on-last" if t["q"][0] == last else "before-last", "last_segment_flat": flat})
     ctx.extra["traced_series_coverage"] = cover
     # the daily comparison must not be vacuous about the end of the series (seeded change C20-3)
     need = {"passes the end of a non-flat series": any(x["days_from_last_date_on"] > 0 and x["starts"] == "before-last" and not x["last_segment_flat"] and x["records"] > 1 for x in cover),
             "starts after the last date": any(x["starts"] == "after-last" for x in cover),
             "starts on the last date": any(x["starts"] == "on-last" for x in cover),
-            "phase < 0": any(x["phase"] < 0 for x in sins), "phase >= 365": any(x["phase"] >= 365 for x in sins)}
+            "phase < 0": any(x["phase"] < 0 for x in sins), "phase >= 365": any(x["phase"] >= 365 for x in sins),
+            "a plateau (equal consecutive levels, then a change) inside a run": any(x["plateau_rows"] > 0 for x in cover),
+            "duplicate dates": any(x["duplicate_dates"] > 0 for x in cover)}
+    for ph in BOUNDARY_PHASES:
+        for via in ("config.yml", "command line"):
+            if not any(x["line"] >= 0 and x["phase"] == ph and plan[x["line"]]["what"].get("via") == via for x in sins):
+                need["phase %d from %s" % (ph, via)] = False
+        if not any(x["line"] < 0 and x["phase"] == ph for x in sins):
+            need["phase %d in hermes.Init" % ph] = False
     for k, v in need.items():
         if not v:
             c.mismatches.append({"kind": "coverage-missing", "what": k})
     ctx.extra["traced_days_series"] = sum(len(t["q"]) for t in traces)
-    ctx.extra["traced_days_sinusoid"] = len(sins)
+    ctx.extra["traced_days_sinusoid"] = sum(1 for x in sins if x["line"] >= 0)
+    ctx.extra["init_cases_sinusoid"] = sum(1 for x in sins if x["line"] < 0)
+    ctx.extra["init_cases_series"] = sum(1 for x in series if x["tag"] == "init")
     ctx.extra["polygon_levels"] = [{"grlo": p["grlo"], "grhi": p["grhi"]} for p in polys]
     c.samples = [{"tag": x["tag"], "dates": x["dates"][:6], "vals": x["vals"][:6], "q": x["q"][:6], "level": x["level"][:6]} for x in series[:2]]
     return c
